@@ -6,6 +6,8 @@ import ExponaxModel.Model.Loops
 import ExponaxModel.Model.Transform
 import ExponaxModel.Model.Nonlin
 import ExponaxModel.Model.EtdrkSpec
+import ExponaxModel.Model.Wave
+import ExponaxModel.Model.Guards
 import ExponaxModel.Generated.Etdrk
 import ExponaxModel.Generated.Convert
 import ExponaxModel.Generated.Misc
@@ -337,6 +339,67 @@ def dispatch (op : String) : P String := do
       let r := Gen.Convert.extract_normalized_nonlinear_scales_from_difficulty (a, b, c) D N M
       return outRe [r.1, r.2.1, r.2.2]
     | _ => throw s!"unknown conversion {fname}"
+  | "loops" =>
+    -- integer bookkeeping stepper f(u) = a*u + b (+ aux)
+    let kind ← nextTok
+    match kind with
+    | "rollout" =>
+      let n ← pNat; let incl ← pNat; let a ← pInt; let b ← pInt; let u0 ← pInt
+      return outInts (Loops.rollout (fun u => a * u + b) n (incl = 1) u0)
+    | "rollout_aux" =>
+      let n ← pNat; let incl ← pNat; let cst ← pNat; let a ← pInt; let b ← pInt; let u0 ← pInt
+      let na ← pNat; let aux ← pMany na pInt
+      return outInts (Loops.rolloutAux (fun u x => a * u + b + x) n (incl = 1) (cst = 1) u0 aux.toList)
+    | "repeat" =>
+      let n ← pNat; let a ← pInt; let b ← pInt; let u0 ← pInt
+      return outInts [Loops.repeatN (fun u => a * u + b) n u0]
+    | "repeat_aux" =>
+      let n ← pNat; let cst ← pNat; let a ← pInt; let b ← pInt; let u0 ← pInt
+      let na ← pNat; let aux ← pMany na pInt
+      return outInts [Loops.repeatAux (fun u x => a * u + b + x) n (cst = 1) u0 aux.toList]
+    | "stack" =>
+      let T ← pNat; let sub ← pNat
+      match Loops.stackSub ((List.range T).map (fun (i : Nat) => Int.ofNat i)) sub with
+      | none => return "-1"
+      | some w => return outInts (w.flatMap id)
+    | "repeated" =>
+      let n ← pNat; let a ← pInt; let b ← pInt; let u0 ← pInt
+      return outInts [Loops.repeatedStepFourier (fun u => a * u + b) n u0]
+    | _ => throw "loops kind"
+  | "wave_step" =>
+    -- c dt n  (kn isDC h v)*n
+    let c ← pRe; let dt ← pRe; let n ← pNat
+    let mut out : List CF := []
+    for _ in [0:n] do
+      let kn ← pRe; let dc ← pNat; let h ← pCF; let v ← pCF
+      let r := Wave.stepMode c dt kn (dc = 1) h v
+      out := out ++ [r.1, r.2]
+    return outCF out
+  | "guard" =>
+    let kind ← nextTok
+    match kind with
+    | "poisson" =>
+      let D ← pNat; let N ← pNat; let r ← pNat
+      let shape ← pMany r pNat
+      return outInts [b2i (Guards.acceptsPoisson D N shape.toList)]
+    | "dim" =>
+      let only ← pInt; let D ← pNat
+      return outInts [b2i (Guards.dimOk (if only < 0 then none else some only.toNat) D)]
+    | "lap" => let o ← pNat; return outInts [b2i (Guards.laplaceOrderOk o)]
+    | "grad" => let o ← pNat; return outInts [b2i (Guards.gradInnerOrderOk o)]
+    | "ic" =>
+      let z ← pNat; let sd ← pNat; let m ← pNat
+      return outInts [b2i (Guards.icNormOk (z = 1) (sd = 1) (m = 1))]
+    | "metric" =>
+      let mode ← pNat; let hr ← pNat
+      return outInts [b2i (Guards.metricModeOk mode (hr = 1))]
+    | "conv" =>
+      let single ← pNat; let C ← pNat; let D ← pNat
+      return outInts [b2i (Guards.convChannelsOk (single = 1) C D)]
+    | "fixed" =>
+      let need ← pNat; let C ← pNat
+      return outInts [b2i (Guards.fixedChannelsOk need C)]
+    | _ => throw "guard kind"
   | _ => throw s!"unknown op {op}"
 
 partial def loop (h : IO.FS.Stream) (out : IO.FS.Stream) : IO Unit := do
